@@ -19,7 +19,7 @@ Definition astate := state xtemp aval.
 
 Lemma xeqb_is a b : xeqb a b = xtemp_eqb a b.
 Proof.
-  unfold teqb; cbn [b_tcompare x86_backend]. destruct a as [x|x], b as [y|y]; cbn; auto;
+  unfold teqb; cbn [b_tcompare x86_backend x86_backend_with]. destruct a as [x|x], b as [y|y]; cbn; auto;
     destruct (N.compare_spec x y) as [->|H|H]; try (now rewrite N.eqb_refl);
     symmetry; apply N.eqb_neq; lia.
 Qed.
@@ -84,7 +84,7 @@ Lemma sim_step f i c s sp :
              sim f (ParMoves.step xtemp xeqb aval c i) s' sp /\ frame_ok s' sp /\ same_frame s s' sp.
 Proof.
   intros F OK (SV & SS). assert (SP : sp_ok sp) by apply F.
-  destruct i as [d src|t|t]; cbn [emit_pinstr b_mov b_store_temporary b_restore_temporary x86_backend pinstr_ok ParMoves.step] in *.
+  destruct i as [d src|t|t]; cbn [emit_pinstr b_mov b_store_temporary b_restore_temporary x86_backend x86_backend_with pinstr_ok ParMoves.step] in *.
   - (* Mov *)
     destruct OK as (VD & VS & NS). pose proof VD as (LD & ND1 & ND0). pose proof VS as (LS & NS1 & NS0).
     unfold x_mov. destruct src as [sr|sq]; [|destruct d as [tr|tq]].
